@@ -74,7 +74,7 @@ var sites = map[string][]string{
 	"chop":          {"chop.feeder", "store", "pb", "pb+fail"},
 	"copy":          {"copy.feeder", "store", "pb", "pb+fail"},
 	"chunkstream":   {"chunkstream.feeder", "store"},
-	"indexfromfile": {"make.worker.loop", "make.worker.beforeSend", "make.sync.recv"},
+	"indexfromfile": {"make.worker.loop", "make.worker.beforeSend", "make.sync.recv", "pb"},
 	"tar":           {"fsread", "fsdata", "wbytes"},
 	"untar":         {"fscreate"},
 	"untarindex":    {"untarindex.feeder", "store", "fscreate", "pb"},
@@ -324,7 +324,8 @@ func run(c *harness.Ctx, i int) {
 		big := dsu.MakeBlob(srng, "random", int(sz.Max)*(8+srng.Intn(10)), sz)
 		dsu.WriteFile(file, big)
 		var got desync.Index
-		got, _, err = desync.IndexFromFile(ctx, file, n*2, sz.Min, sz.Avg, sz.Max, pb)
+		// (one worker as well: the last worker is then the only one, nobody is left to notice what it left out)
+		got, _, err = desync.IndexFromFile(ctx, file, []int{1, n, n * 2}[s%3], sz.Min, sz.Avg, sz.Max, pb)
 		ref := dsu.RefIndex(big, sz)
 		complete = got.Length() == int64(len(big)) && len(got.Chunks) == len(ref.Chunks)
 		detail = fmt.Sprintf("index covers %d of %d bytes", got.Length(), len(big))
